@@ -331,3 +331,61 @@ def task_minify():
     ok = len([p for p in ex.paths if p[0] == 'ok'])
     res['notes'].append('minify: %d feasible paths' % ok)
     return res
+
+
+# ---------------------------------------------------------------------------------------------------------------------
+# C01: composition lemma over the stage contracts
+
+ADEQUACY = [
+    ('parse/print', 'the printed text parses back to the printed tree (C02) and the tree is what CPython would compile (external)'),
+    ('RemoveLiteralStatements', 'dropping an expression statement that is a literal has no effect; a suite never becomes empty (C05); module docstring kept when __doc__ is used'),
+    ('CombineImports', 'adjacent imports merged in source order execute the same imports in the same order (C05)'),
+    ('RemoveAnnotations', 'dropping an annotation changes only __annotations__ PROVIDED its expression has no effect (side condition NOT established by the code: KF-15)'),
+    ('RemovePass', 'pass has no effect; an emptied suite gets the expression statement 0 (C05)'),
+    ('RemoveObject', 'class C(object) == class C PROVIDED object is the builtin (side condition NOT established by the code: KF-14)'),
+    ('RemoveAsserts', 'only on request (not a safe option)'),
+    ('RemoveDebug', 'only on request (not a safe option)'),
+    ('RemoveExplicitReturnNone', 'return None == return; a trailing bare return == falling off the end (C05)'),
+    ('FoldConstants', 'the replacement literal has the value and type of the expression (C07)'),
+    ('remove_no_arg_exception_call', 'raise E() == raise E PROVIDED E is an un-shadowed builtin exception class (C05: builtin binding, not redefined, whitelisted, not tainted)'),
+    ('rename_literals', 'an alias bound once, first in an enclosing function/module body, to the identical constant (C06); identity of equal immutable constants is not observable behaviour'),
+    ('rename', 'alpha-renaming of bindings that are not part of the interface (C03, C04, C09, C10)'),
+    ('remove_posargs', 'a, / -> a PROVIDED no **kwargs parameter can capture the name (side condition established: C05/remove_posargs/marker-kept-when-kwargs-can-capture-the-name); a call that passed a positional-only name as a keyword and raised TypeError is outside "runnable programs"'),
+]
+
+
+def task_composition():
+    """Lemma (no code): observable behaviour is preserved by the pipeline if every enabled stage is adequate.  `equiv` is an uninterpreted
+    equivalence on programs; the stage contracts give equiv(p_i, p_{i+1}); z3 derives equiv(p_0, p_n) for every subset of enabled stages."""
+    import z3
+    Prog = z3.DeclareSort('Prog')
+    equiv = z3.Function('equiv', Prog, Prog, z3.BoolSort())
+    x, y, w = z3.Consts('x y w', Prog)
+    axioms = [z3.ForAll([x], equiv(x, x)), z3.ForAll([x, y, w], z3.Implies(z3.And(equiv(x, y), equiv(y, w)), equiv(x, w)))]
+    n = len(ADEQUACY)
+    ps = [z3.Const('p%d' % i, Prog) for i in range(n + 1)]
+    enabled = [z3.Bool('enabled_%s' % ADEQUACY[i][0].replace('/', '_')) for i in range(n)]
+    adequate = [z3.Bool('adequate_%s' % ADEQUACY[i][0].replace('/', '_')) for i in range(n)]
+    steps = []
+    for i in range(n):
+        steps.append(z3.Implies(z3.And(enabled[i], adequate[i]), equiv(ps[i], ps[i + 1])))     # contract of stage i
+        steps.append(z3.Implies(z3.Not(enabled[i]), ps[i] == ps[i + 1]))                       # a stage that is off does nothing (C05 gating)
+    goal = z3.Implies(z3.And([z3.Implies(enabled[i], adequate[i]) for i in range(n)]), equiv(ps[0], ps[n]))
+    s = z3.Solver()
+    s.set('timeout', 20000)
+    s.add(axioms + steps)
+    s.add(z3.Not(goal))
+    import time
+    t0 = time.time()
+    r = s.check()
+    obs = [{'name': 'C01/lemma/enabled-adequate-stages-compose-to-behavioural-equivalence', 'status': 'proved' if r == z3.unsat else ('refuted' if r == z3.sat else 'undecided'),
+            'detail': 'transitivity of the uninterpreted equivalence over %d stages, every subset of enabled stages' % n, 'model': {}, 'time_s': time.time() - t0,
+            'backend': 'z3', 'path': None, 'kind': 'lemma', 'goal': 'forall subsets of enabled stages: (enabled_i => adequate_i) => equiv(p0, pn)'}]
+    # vacuity twin: without the stage contracts the goal must fail
+    s2 = z3.Solver()
+    s2.add(axioms)
+    s2.add(z3.Not(goal))
+    s2.add(enabled[0])
+    obs.append({'name': 'C01/lemma/cover-goal-is-not-trivial', 'status': 'proved' if s2.check() == z3.sat else 'refuted', 'detail': 'the goal is refutable without the stage contracts',
+                'model': {}, 'time_s': 0, 'backend': 'z3', 'path': None, 'kind': 'cover', 'goal': None})
+    return result(obs, [source.describe(PM + ':minify')], ASSUMPTIONS + ['adequacy axiom (trusted): %s -- %s' % a for a in ADEQUACY])
